@@ -29,10 +29,7 @@ theorem failSession_ok (c : Cfg) (s : St) (h : Ok c s) : Ok c (failSession c s).
   · have h1 := sendSession_ok c s { id := c.sid, from_ := c.node, to := s.remote, state := .failed, hasReason := true }
       (by simp) h
     have h2 := setState_ok c _ .failed h1
-    simp only
-    split
-    · exact closeT_ok c _ h2
-    · exact h2
+    exact closeT_ok c _ h2
 
 theorem recvSession_ok (c : Cfg) (s : St) (h : Ok c s) : Ok c (recvSession c s).2 := by
   rcases recvSession_cases c s with ⟨x, _, ht⟩ | ⟨_, ht | ⟨r, _, ht⟩⟩
